@@ -14,7 +14,7 @@ Theorem C01_verdict_iff :
   forall rk m cap n,
     In rk builtin_reporters -> (1 <= cap)%nat -> is_suite n -> ok_tree m cap n ->
     (exit_ok (run_suite rk verdict_suite m cap n) = true <-> all_good n).
-Proof. intros rk m cap n Hrk. apply verdict_iff. apply builtin_rk_folds. exact Hrk. Qed.
+Proof. exact (fun rk m cap n Hrk => verdict_iff rk m cap n (builtin_rk_folds rk Hrk)). Qed.
 Print Assumptions C01_verdict_iff.
 
 (* ... and those totals show none exactly when no test of the tree, run alone, has a failing
